@@ -157,6 +157,9 @@ func (m *mon) observeSend(src *core.Node, what string, o *pkt.Obs, spec pkt.Send
 			m.r.Violation(m.cid, "events/undecodable-PacketSent", map[string]interface{}{"bytes": core.Hex(raw)})
 			continue
 		}
+		if dn := m.s.W.ByName[p.DstChain]; dn == nil || dn == src {
+			m.r.Violation(m.cid, "send/accepted-for-a-destination-without-client", map[string]interface{}{"destination": p.DstChain, "chain": src.Name, "what": what})
+		}
 		k := key(src, p.DstChain)
 		m.dsts[p.DstChain] = true
 		want := m.nextOf(k)
@@ -284,6 +287,12 @@ func (m *mon) invalidSend() {
 	case 0:
 		sp.DstName = "no-such-chain"
 		what = "unknown-destination"
+		if s.Rng.Intn(2) == 0 {
+			// names that are not chains but read like one that has a client (the destination of a packet is a free string)
+			d := sp.Dst.Name
+			sp.DstName = []string{d + "/consensusStates", d + "/consensusStates", d + "/consensusStates", d + "/consensusStates", d + "/clientState", d + "/", d + "/consensusStates/", strings.ToUpper(d), d[:len(d)-1], d + "x", " " + d, d + "/relayers"}[s.Rng.Intn(12)]
+			what = "unknown-destination/look-alike"
+		}
 	case 1:
 		if sp.Token == nil {
 			return
